@@ -280,8 +280,19 @@ func (c *RaftCluster) LoadClusterInfo() (*RaftCluster, error) {
 	}
 
 	start := time.Now()
-	if err := c.storage.LoadStores(c.core.PutStore); err != nil {
+	// The basic cluster outlives a leadership term of this member: drop the stores it still
+	// caches from an earlier term whose record no longer exists in storage.
+	loaded := make(map[uint64]struct{})
+	if err := c.storage.LoadStores(func(store *core.StoreInfo) {
+		loaded[store.GetID()] = struct{}{}
+		c.core.PutStore(store)
+	}); err != nil {
 		return nil, err
+	}
+	for _, store := range c.GetStores() {
+		if _, ok := loaded[store.GetID()]; !ok {
+			c.core.DeleteStore(store)
+		}
 	}
 	log.Info("load stores",
 		zap.Int("count", c.GetStoreCount()),
